@@ -37,11 +37,13 @@ def fam_lock(E, k, fault_kinds, nest=True, rerequest=False, real=False, pmax=2, 
     log = Log()
     inside = []        # contenders currently between 'enter' and 'left' (maintained by them)
     wanting = []       # contenders between 'request' and 'left'
+    want_act = {}      # tag -> activity of that contender
 
     async def hold(i, round_):
         tag = (i, round_)
         log(i, 'request', round_)
         wanting.append(tag)
+        want_act[tag] = STATE.loop.activity
         try:
             async with lock:
                 inside.append((tag, STATE.loop.activity))
@@ -76,6 +78,7 @@ def fam_lock(E, k, fault_kinds, nest=True, rerequest=False, real=False, pmax=2, 
         n0 = STATE.loop.turn
         log('P', 'request', lock.available)
         wanting.append('P')
+        want_act['P'] = STATE.loop.activity
         try:
             async with lock:
                 inside.append(('P', STATE.loop.activity))
@@ -97,6 +100,7 @@ def fam_lock(E, k, fault_kinds, nest=True, rerequest=False, real=False, pmax=2, 
         await (time + 202)
         log('P2', 'request', lock.available)
         wanting.append('P2')
+        want_act['P2'] = STATE.loop.activity
         try:
             async with lock:
                 inside.append(('P2', STATE.loop.activity))
@@ -148,6 +152,13 @@ def fam_lock(E, k, fault_kinds, nest=True, rerequest=False, real=False, pmax=2, 
                      '' if ins[0][1] is target else ' not'))
         if not want:
             E.prove(avail is True, 'free-when-nobody-holds-or-waits')
+        elif not ins and avail:
+            # hand-over window: nobody is inside but somebody asked for the lock - it is either
+            # free for, or already passed on to, one of those who asked; for anybody else it is
+            # not available
+            E.prove(any(want_act[tag] is target for tag in want),
+                    'not-available-to-others-while-handed-over',
+                    ('available for an activity that did not ask while %r asked', want))
     # FIFO among contenders that obtained the lock
     req = [(e[0], e[3]) for e in log.events if e[1] == 'request' and e[0] not in ('P', 'P2')]
     ent = [(e[0], e[3]) for e in log.events if e[1] == 'enter' and e[0] not in ('P', 'P2')]
